@@ -316,6 +316,10 @@ func (r *Runner) Exec(act Action) (res Result) {
 		fb := r.feeBal()
 		out := a.B.DeliverTx(abci.RequestDeliverTx{Tx: bz})
 		a.Pending = append(a.Pending, tmtypes.Tx(bz).Hash())
+		if act.Replay > 0 && out.Code == 0 && !a.RPC.WasAsked(tmtypes.Tx(bz).Hash()) {
+			fmt.Fprintln(os.Stderr, "harness failure: the tx-index lookup never reached the fake RPC server")
+			os.Exit(3)
+		}
 		res.Code, res.Codespace, res.Log = out.Code, out.Codespace, trim(out.Log)
 		res.Class = classify(out.Code, fb, r.feeBal())
 		res.Events = evDigest(out.Code, out.Codespace, out.Data, evStr(out.Events))
@@ -335,8 +339,27 @@ func (r *Runner) Exec(act Action) (res Result) {
 		}
 		res.Class = classify(res.Code, 0, 0)
 	case "Query":
-		data, _ := hex.DecodeString(act.Data)
-		out := a.B.Query(abci.RequestQuery{Path: act.Path, Data: data, Height: act.Height, Prove: act.Prove})
+		path, data := act.Path, []byte(nil)
+		if act.Data != "" {
+			data, _ = hex.DecodeString(act.Data)
+		}
+		switch act.Kind {
+		case "store-acc":
+			path, data = "/store/"+auth.StoreKey+"/key", append([]byte{0x01}, a.Addr(1)...)
+		case "store-pos":
+			path, data = "/store/"+postypes.StoreKey+"/subspace", postypes.AllValidatorsKey
+		case "custom-pool":
+			path = "/custom/pos/" + postypes.QueryStakedPool
+		case "custom-params":
+			path = "/custom/pos/" + postypes.QueryParameters
+		case "custom-vals":
+			path, data = "/custom/pos/"+postypes.QueryUnstakingValidators, []byte(`{"page":1,"limit":10}`)
+		case "version":
+			path = "/app/version"
+		case "bad-path":
+			path = "/nosuch/thing"
+		}
+		out := a.B.Query(abci.RequestQuery{Path: path, Data: data, Height: act.Height, Prove: act.Prove})
 		res.Code, res.Log = out.Code, trim(out.Log)
 		res.Value = hex.EncodeToString(out.Value)
 	case "ExtAward":
